@@ -2,68 +2,49 @@
 
 "Same observable behaviour" is not decided.  Claimed: vtable completeness,
 fallback compatibility, EINTR discipline, ENOSYS fallbacks, exclusion list.
+
+Formulation (see h15.py): the anchors are *sites* -- a call through a method slot, a store to the
+selected-method pointer, a system-call site (`syscall(__NR_eventfd2, ..)`, `epoll_create1`, `ppoll`, `splice`,
+`read` ...) -- never the names of the static helpers that happen to contain them.  Every site obligation is
+evaluated in the entry point(s) (exported function, method-table slot, installed handler) from which the site is
+reached, with all helpers inlined.  Fallback / retry obligations are decided by injecting the failure
+(ENOSYS, EINTR, ...) at the site and walking the inlined graph path-sensitively: what must hold is stated
+about every path that saw the failure.
 """
-from ..core import (names_of, same_value, AnalysisBroken, Inliner, canon, strip, last_member, must_pass, relpath, norm_cond, walk, forward)
-from ..analyses import (is_call, holding, path_to, describe, exits_of, callback_kind, loops, innermost_loop,
-                        delta_analysis, is_fail, must_pass_from_block, locksets, held, SIGBLOCK)
+from ..core import (AnalysisBroken, PRIMITIVES, canon, strip, last_member, walk, method_slot, norm_cond)
+from ..analyses import (is_call, holding, callback_kind, locksets, held, SIGBLOCK)
+from .. import roles
+from . import h15
+from .h15 import (Sim, Outcome, fail, const, truth, is_const, NZ, TOP, prim_kind, is_prim, nearest_roots, root_role,
+                  in_contexts, inlined, ENOSYS, EINTR, EINVAL, EPERM, EMFILE)
 
 MANDATORY = ('name', 'init', 'poll', 'notify_fd', 'notify_fd_sync', 'deinit')
 PARTNERS = [('set_poll_timeout', 'clear_poll_timeout'), ('event_rx_on', 'event_rx_off', 'event_send')]
 SAME_ON_FALLBACK = ('init', 'deinit', 'register_fd', 'unregister_fd', 'notify_fd', 'notify_fd_sync', 'event_rx_on', 'event_rx_off', 'event_send')
 WAITS = ('poll', 'ppoll', 'epoll_wait', 'epoll_pwait2')
 INTERRUPTIBLE = ('read', 'write', 'splice', 'epoll_ctl', 'poll', 'ppoll', 'epoll_wait', 'epoll_pwait2')
-EINTR = '4'
 
+# Exemptions from "retried on EINTR", keyed by the *role* of the entry point that reaches the site (method slot /
+# exported function / framework primitive) and the primitive called -- not by the static helper containing it.
 EINTR_EXEMPT = {
-    ('check_splice_available', 'splice'): 'probe on fresh non-blocking pipes: any failure means "unavailable"',
-    ('iv_fd_epoll_create_active_fd', 'write'): 'priming write on a fresh eventfd cannot block; any short/failed write is fatal',
-    ('iv_fd_epoll_timerfd_poll', 'read'): 'non-blocking timer descriptor that epoll just reported readable; errors are fatal',
-    ('fallback_spin_lock', 'read'): 'blocking token read; every caller has all signals blocked (R-C10c), so it cannot be interrupted by a handler of this process',
+    ('api:iv_fd_pump_init', 'splice'): 'probe on fresh non-blocking pipes: any failure means "unavailable"',
+    ('slot:event_rx_on', 'write'): 'priming write on a fresh eventfd cannot block; any short/failed write is fatal',
+    ('slot:poll@epoll_timerfd', 'read'): 'non-blocking timer descriptor that epoll just reported readable; errors are fatal',
+    ('primitive:fallback_spin_lock', 'read'): 'blocking token read; every caller has all signals blocked (R-C10c), so it cannot be interrupted by a handler of this process',
 }
 
-
-def eintr_retried(f, call):
-    """The call is inside a loop whose back edge is taken only when the call's
-    result is negative and errno == EINTR."""
-    lps = loops(f)
-    h = innermost_loop(f, call['_b'], lps)
-    if h is None:
-        return False
-    body = lps[h]
-    rv = None
-    for s in f.events():
-        if s['ev'] == 'store' and 'rhs' in s and s['_b'] == call['_b']:
-            r = strip(s['rhs'])
-            if isinstance(r, dict) and r.get('k') == 'call' and r.get('loc') == call.get('loc'):
-                rv = canon(s['lhs'])
-    if rv is None:
-        return False
-    hd = holding(f)
-    ok = False
-    for b in body:
-        blk = f.blocks[b]
-        for si, s_ in enumerate(blk.succ):
-            if s_ == h or (s_ in body and _leads_only_to(f, s_, h, body)):
-                pass
-    # every back edge into the header carries (rv < 0) and (errno == EINTR)
-    backs = [(b, si) for b in body for si, s_ in enumerate(f.blocks[b].succ) if s_ == h]
-    if not backs:
-        return False
-    for (b, si) in backs:
-        A = set(hd.get((b, len(f.blocks[b].events)), frozenset()))
-        blk = f.blocks[b]
-        if blk.term and blk.term.get('cond') is not None and len(blk.succ) == 2:
-            for at in norm_cond(blk.term['cond'], si == 0):
-                A.add((at[0], at[1], at[2], frozenset()))
-        neg = any(a[1] == rv and ((a[0] == '<' and a[2] == '0') or (a[0] == '==' and a[2] == '-1')) for a in A)
-        eintr = any(a[0] == '==' and '__errno_location' in a[1] and a[2] == EINTR for a in A)
-        if not (neg and eintr):
-            return False
-    return True
-
-
-def _leads_only_to(f, s, h, body):
-    return False
+# optional facilities: (label, kinds that are missing in the scenario (the last one is the stage under test),
+#                       errnos the stage must treat as "missing", kinds of the alternative, where the demotion is kept)
+CHAINS = [
+    ('epoll_create1->epoll_create', ('epoll_create1',), (ENOSYS,), ('epoll_create',), 'flag'),
+    ('epoll_create->none', ('epoll_create1', 'epoll_create'), (ENOSYS,), None, 'flag'),     # last stage: may report failure
+    ('epoll_pwait2->epoll_wait', ('epoll_pwait2',), (ENOSYS, EPERM), ('epoll_wait',), 'flag'),
+    ('eventfd2->eventfd', ('eventfd2',), (ENOSYS, EINVAL), ('eventfd',), 'flag'),
+    ('eventfd->pipe', ('eventfd2', 'eventfd'), (ENOSYS,), ('pipe', 'pipe2'), 'flag'),
+    ('pipe2->pipe', ('pipe2',), (ENOSYS,), ('pipe',), 'flag'),
+    ('ppoll->poll', ('ppoll',), (ENOSYS,), ('poll',), 'switch'),
+    ('timerfd_create->plain epoll', ('timerfd_create',), (ENOSYS,), (), 'switch'),
+]
 
 
 def run(ctx):
@@ -73,7 +54,7 @@ def run(ctx):
                        'functions as those of every table from whose slots the store is reachable; the switching function still waits / reports not-armed', floor=4)
     ctx.rule('R-C15c', 'EINTR discipline: wait primitives return to the loop (non-zero, time cache invalidated) on EINTR; every other '
                        'interruptible call is retried while it fails with EINTR, or is tabled with a reason', floor=20)
-    ctx.rule('R-C15d', 'ENOSYS fallbacks reach their alternative in the same invocation and demote their one-way flag', floor=6)
+    ctx.rule('R-C15d', 'ENOSYS fallbacks reach their alternative in the same invocation and demote their one-way flag', floor=12)
     ctx.rule('R-C15e', 'exclusion list: every candidate method is considered through the same exclusion test with the same list; failure to '
                        'initialise any method is the only fatal outcome', floor=4)
     ctx.rule('R-C15f', 'a mid-run fallback is honoured by the caller: the result of arming the kernel timer is propagated and a "not armed" '
@@ -85,6 +66,84 @@ def run(ctx):
     ctx.section(enosys)
     ctx.section(exclusion)
 
+
+# --------------------------------------------------------------------------
+# shared helpers
+# --------------------------------------------------------------------------
+
+def _sites(prog, pred):
+    """{loc: (owner function, [events])} of the source sites satisfying pred, found in the functions' own bodies"""
+    out = {}
+    for f in sorted(prog.all_funcs(), key=lambda f: f.q):
+        for e in f.events():
+            if pred(e):
+                out.setdefault(e['loc'], (f, []))[1].append(e)
+    return out
+
+
+def _copies(g, loc, pred):
+    return [e for e in g.events() if e.get('loc') == loc and pred(e)]
+
+
+def _contexts_of(prog, owner):
+    """entry points in which a site of `owner` is evaluated; framework primitives (never inlined) are their own context"""
+    if owner.name in PRIMITIVES:
+        return [owner]
+    return nearest_roots(prog, owner)
+
+
+def _eval_site(prog, owner, check, **kw):
+    if owner.name in PRIMITIVES:
+        ok, detail = check(owner, owner)
+        return ok, [(owner, ok, detail)]
+    return in_contexts(prog, owner, check, **kw)
+
+
+def _kills_for(prog, root):
+    """Which file-scope variables an indirect call may change: a call through a method slot enters another
+    translation unit of the library, so `static` state of the unit being analysed survives it unless that
+    unit itself provides method slots; a user callback may re-enter the library anywhere."""
+    unit = prog.unit_of(root)
+    table_units = {v[0] for slots in prog.method_tables().values() for v in slots.values() if v and v[0] != 'str'}
+
+    def kills(e, names):
+        ck = callback_kind(e)
+        if ck and ck[0] == 'method' and unit is not None and unit not in table_units:
+            out = set()
+            for n in names:
+                gl = prog.global_for(unit, n)
+                if gl is None or not gl.get('static'):
+                    out.add(n)
+            return out
+        return set(names)
+    return kills
+
+
+class CSim(Sim):
+    """Sim whose indirect calls forget only the state they can reach (see _kills_for)."""
+
+    def __init__(self, prog, root, g, oracle=None, marker=None, init=None, edge_marker=None):
+        Sim.__init__(self, g, oracle, marker, init, edge_marker=edge_marker)
+        self._kills = _kills_for(prog, root)
+
+    def _event(self, e, env, marks):
+        if e['ev'] == 'call' and 'fnexpr' in e:
+            killed = self._kills(e, self.globals)
+            keep = {k: v for k, v in env.items() if k in self.globals and k not in killed}
+            if killed and 'F' in marks and not any(isinstance(x, tuple) and x[0] == 'post' for x in marks):
+                # control is handed to code that may re-enter the library: the file-scope state as it is now is
+                # what that code (and every later invocation) finds
+                marks = marks | {('post', _snapshot(self, env))}
+            env2, marks = Sim._event(self, e, env, marks)
+            env2 = dict(env2)
+            env2.update(keep)
+            return env2, marks
+        return Sim._event(self, e, env, marks)
+
+
+# --------------------------------------------------------------------------
+# R-C15a
+# --------------------------------------------------------------------------
 
 def vtable(ctx):
     prog = ctx.prog
@@ -104,294 +163,698 @@ def vtable(ctx):
         for s in grp:
             partner_of[s] = set(grp)
     never_null = {s for s in optional if all(t.get(s) for t in tables.values())}
-    n = 0
-    for f in sorted(prog.all_funcs(), key=lambda f: f.q):
-        sites = [e for e in f.events() if e['ev'] == 'call' and (callback_kind(e) or ('', ''))[0] == 'method' and callback_kind(e)[1] in optional]
-        if not sites:
+    sites = _sites(prog, lambda e: e['ev'] == 'call' and (callback_kind(e) or ('', ''))[0] == 'method' and callback_kind(e)[1] in optional)
+    if len(sites) < 6:
+        raise AnalysisBroken('optional slot call sites: %d' % len(sites))
+    absent_cache = {}
+    for loc, (f, evs) in sorted(sites.items()):
+        slot = callback_kind(evs[0])[1]
+        inst = '%s:call %s' % (f.name, slot)
+        if slot in never_null:
+            ctx.ob('R-C15a', inst, True, loc=loc, detail='slot is defined in every table', fn=f.q)
             continue
-        # inline into callers to see guards placed there (event_rx_off / event_send wrappers)
-        for cs in sites:
-            slot = callback_kind(cs)[1]
-            n += 1
-            if slot in never_null:
-                ctx.ob('R-C15a', '%s:call %s' % (f.name, slot), True, loc=cs['loc'], detail='slot is defined in every table', fn=f.q)
-                continue
-            ok = _guarded(prog, f, cs, partner_of.get(slot, {slot}), slot=slot)
-            ctx.ob('R-C15a', '%s:call %s' % (f.name, slot), ok, loc=cs['loc'],
-                   detail='call through optional slot `%s` is dominated by a non-NULL test of %s (here or in every caller)' % (slot, sorted(partner_of.get(slot, {slot}))), fn=f.q)
-    if n < 6:
-        raise AnalysisBroken('optional slot call sites: %d' % n)
+        grp = partner_of.get(slot, {slot})
+        key = tuple(sorted(grp - {slot}))
+        if key not in absent_cache:
+            absent_cache[key] = _absence_flags(prog, key)
+        flags = absent_cache[key]
+
+        def check(root, g, loc=loc, slot=slot, grp=grp, flags=flags):
+            cps = _copies(g, loc, lambda e: e['ev'] == 'call' and method_slot(e) == slot)
+            if not cps:
+                return True, 'site not reached from %s' % root.name
+            hd = holding(g, user_call_kills=False)
+            for cs in cps:
+                A = hd.get((cs['_b'], cs['_i']), frozenset())
+                if any(a[0] == '!=' and a[2] == '0' and any(('iv_fd_poll_method', s) in a[3] for s in grp) for a in A):
+                    continue
+                # state-based implication: a file-scope flag that is raised on every path on which the partner slot
+                # was found to be NULL (and never lowered again) is tested to be zero here
+                if any(a[0] == '==' and a[2] == '0' and a[1] in flags for a in A):
+                    continue
+                return False, 'unguarded in %s' % root.name
+            return True, 'guarded in %s' % root.name
+        ok, res = _eval_site(prog, f, check)
+        ctx.ob('R-C15a', inst, ok, loc=loc,
+               detail='call through optional slot `%s` is dominated by a non-NULL test of %s, or by a zero test of a flag that records their absence %s, in every entry point '
+                      'that reaches it (%s)' % (slot, sorted(grp), sorted(flags), '; '.join(d for _, _, d in res)), fn=f.q)
 
 
-def _guarded(prog, f, cs, slots, depth=0, slot=None):
-    hd = holding(f, user_call_kills=False)
-    A = hd.get((cs['_b'], cs['_i']), frozenset())
-    for a in A:
-        if a[0] == '!=' and a[2] == '0' and any(('iv_fd_poll_method', s) in a[3] for s in slots):
-            return True
-    # a successful earlier call of a partner in the same thread implies the group exists: accept guards in all callers
-    if depth >= 3:
-        return False
-    callers = prog.callers_of(f.name)
-    callers = [(c, e) for c, e in callers if prog.resolve(prog.unit_of(c), f.name) is f or not f.static]
-    if not callers:
-        return False
-    for c, e in callers:
-        if not _guarded(prog, c, e, slots, depth + 1, slot=slot):
-            # state-based implication: event_rx_off / event_send run only while the kick mode is the method's
-            # (iv_event_use_event_raw == 0), which is only possible if event_rx_on existed and succeeded
-            hc = holding(c, user_call_kills=False).get((e['_b'], e['_i']), frozenset())
-            if slot != 'event_rx_on' and any(a[1] == 'iv_event_use_event_raw' and a[0] == '==' and a[2] == '0' for a in hc):
-                continue
-            return False
-    return True
+def _absence_flags(prog, partner_slots):
+    """File-scope flags F with: in every entry point that tests one of `partner_slots` for NULL, no path that took
+    the NULL edge returns before F is known to be non-zero; and F is never written anything but a non-zero constant.
+    Then `F == 0` later implies that the partner slot (hence the whole group) exists."""
+    if not partner_slots:
+        return set()
+    cands = None
+    for slot in partner_slots:
+        sites = _sites(prog, lambda e, slot=slot: e['ev'] == 'call' and method_slot(e) == slot)
+        for loc, (f, evs) in sites.items():
+            for r in _contexts_of(prog, f):
+                if r.name in PRIMITIVES:
+                    continue
+                g = inlined(prog, r)
 
+                def edge_marker(blk, si, env, marks, slot=slot):
+                    if blk.term and blk.term.get('cond') is not None and len(blk.succ) == 2:
+                        for (op, lc, rc, l, r_) in norm_cond(blk.term['cond'], si == 0):
+                            if op == '==' and rc == '0' and isinstance(l, dict) and last_member(l) == ('iv_fd_poll_method', slot):
+                                return ['ABSENT']
+                    return ()
+                sim = CSim(prog, r, g, None, None, None, edge_marker=edge_marker).run()
+                ends = [env for (_, env, m, _) in sim.exits if 'ABSENT' in m]
+                if not ends:
+                    continue
+                good = {n for n in sim.globals if all(truth(env.get(n, TOP)) is True for env in ends)}
+                cands = good if cands is None else (cands & good)
+    if not cands:
+        return set()
+    out = set()
+    for name in cands:
+        ws = prog.global_writers(name)
+        if ws and all(e.get('op') == '=' and isinstance(strip(e.get('rhs')), dict) and strip(e['rhs']).get('k') == 'int' and strip(e['rhs'])['v'] != 0 for (_, e) in ws):
+            out.add(name)
+    return out
+
+
+# --------------------------------------------------------------------------
+# R-C15b
+# --------------------------------------------------------------------------
 
 def fallbacks(ctx):
     prog = ctx.prog
     tables = prog.method_tables()
-    stores = []
-    for f in prog.all_funcs():
-        for e in f.events():
-            if e['ev'] == 'store' and strip(e['lhs']).get('k') == 'var' and strip(e['lhs'])['name'] == 'method' and strip(e['lhs']).get('vk') == 'global':
-                stores.append((f, e))
-    mid = [(f, e) for f, e in stores if strip(e['rhs']).get('k') == 'addr']
+    mnames = h15.method_pointer_names(prog)
+    sites = _sites(prog, lambda e: h15.is_method_store(prog, e) and h15.stored_table(e) is not None)
+    mid = []
+    for loc, (f, evs) in sorted(sites.items()):
+        # a store that only happens while no method is selected yet is the initial selection (R-C15e), not a fallback
+        initial = True
+        for r in _contexts_of(prog, f):
+            g = inlined(prog, r)
+            hd = holding(g, user_call_kills=False)
+            for c in _copies(g, loc, lambda e: h15.is_method_store(prog, e)):
+                A = hd.get((c['_b'], c['_i']), frozenset())
+                if not any(a[0] == '==' and a[1] in mnames and a[2] == '0' for a in A):
+                    initial = False
+        if not initial:
+            mid.append((loc, f, evs[0]))
     if len(mid) < 2:
         raise AnalysisBroken('mid-run method fallbacks: %d found, 2 confirmed' % len(mid))
-    for f, e in mid:
-        target = strip(strip(e['rhs'])['e'])['name']
+    for loc, f, e in mid:
+        target = h15.stored_table(e)
         if target not in tables:
-            ctx.ob('R-C15b', '%s:target' % f.name, False, loc=e['loc'], detail='fallback target %s is not a method table' % target, fn=f.q)
+            ctx.ob('R-C15b', '%s:target' % f.name, False, loc=loc, detail='fallback target %s is not a method table' % target, fn=f.q)
             continue
-        srcs = [t for t, slots in tables.items() if any(v and v[0] != 'str' and v[1] == f.name for v in slots.values())]
-        if not srcs:
-            ctx.ob('R-C15b', '%s:source' % f.name, False, loc=e['loc'], detail='function storing `method` is not itself a method slot', fn=f.q)
-            continue
-        for s in srcs:
-            diff = [k for k in SAME_ON_FALLBACK if tables[s].get(k) != tables[target].get(k)]
-            ctx.ob('R-C15b', '%s:%s->%s' % (f.name, s.replace('iv_fd_poll_method_', ''), target.replace('iv_fd_poll_method_', '')), not diff, loc=e['loc'],
-                   detail='state-bearing slots that differ: %s' % (diff or 'none (registered interests, notify lists and descriptors stay valid)'), fn=f.q)
-        # the switching function still performs the wait / reports not armed
-        slotname = [k for k, v in tables[srcs[0]].items() if v and v[0] != 'str' and v[1] == f.name][0]
-        hd = holding(f)
-        if slotname == 'poll':
-            tgt_poll = tables[target]['poll'][1]
-            mp = must_pass(f, lambda x: is_call(x, tgt_poll), start_event=e)
-            ok = all(mp.get((pb, pi), True) for (pb, pi, _) in exits_of(f))
-            ctx.ob('R-C15b', '%s:still-waits' % f.name, ok, loc=e['loc'], detail='after switching, the call falls through to %s in the same invocation' % tgt_poll, fn=f.q)
-        else:
-            rets = [x for (pb, pi, x) in exits_of(f) if must_pass(f, lambda y: y is e).get((pb, pi))]
-            ok = bool(rets) and all(canon(x.get('value')) == '0' for x in rets)
-            ctx.ob('R-C15b', '%s:reports-not-armed' % f.name, ok, loc=e['loc'], detail='after switching it returns 0, so the caller waits with the deadline itself', fn=f.q)
+        for r in _contexts_of(prog, f):
+            srcs = {}
+            for t, slots in tables.items():
+                for k, v in slots.items():
+                    if v and v[0] != 'str' and prog.resolve(v[0], v[1]) is r:
+                        srcs.setdefault(t, k)
+            if not srcs:
+                ctx.ob('R-C15b', '%s:source' % r.name, False, loc=loc, detail='the entry point from which `method` is switched mid-run is not itself a method slot', fn=r.q)
+                continue
+            for s in sorted(srcs):
+                diff = [k for k in SAME_ON_FALLBACK if tables[s].get(k) != tables[target].get(k)]
+                ctx.ob('R-C15b', '%s:%s->%s' % (r.name, s.replace('iv_fd_poll_method_', ''), target.replace('iv_fd_poll_method_', '')), not diff, loc=loc,
+                       detail='state-bearing slots that differ: %s' % (diff or 'none (registered interests, notify lists and descriptors stay valid)'), fn=r.q)
+            slotname = sorted(set(srcs.values()))[0]
+            # the switching entry point still performs the wait / reports not armed
+            g = inlined(prog, r, method_table=target)
+            cps = _copies(g, loc, lambda x: h15.is_method_store(prog, x))
+            if not cps:
+                raise AnalysisBroken('%s: method switch site lost by inlining' % r.name)
+
+            def marker(ev, env, marks, loc=loc):
+                if ev['ev'] == 'store' and ev.get('loc') == loc and h15.is_method_store(prog, ev):
+                    return ['SW']
+                if 'SW' in marks and ev['ev'] == 'call' and prim_kind(ev) in WAITS and not h15.zero_timeout_poll(ev):
+                    return ['WAIT:' + prim_kind(ev)]
+                return ()
+            sim = CSim(prog, r, g, None, marker).run()
+            if slotname == 'poll':
+                tp = prog.slot_targets('poll', target)
+                want = set()
+                for t_ in tp:
+                    for x in inlined(prog, t_).events():
+                        if x['ev'] == 'call' and prim_kind(x) in WAITS and not h15.zero_timeout_poll(x):
+                            want.add('WAIT:' + prim_kind(x))
+                ends = [(m, 'return') for (_, _, m, _) in sim.exits] + [(m, 'fatal') for (_, _, m) in sim.fatals]
+                ok = bool(want) and any('SW' in m for m, _ in ends) and all((m & want) for m, _ in ends if 'SW' in m)
+                ctx.ob('R-C15b', '%s:still-waits' % r.name, ok, loc=loc,
+                       detail='after switching, every path of the same invocation performs the wait of the new method (%s)' % sorted(want), fn=r.q)
+            else:
+                rets = [rv for (_, _, m, rv) in sim.exits if 'SW' in m]
+                ok = bool(rets) and all(rv is not None and is_const(rv) and rv[0] == 0 for rv in rets)
+                ctx.ob('R-C15b', '%s:reports-not-armed' % r.name, ok, loc=loc, detail='after switching it returns 0, so the caller waits with the deadline itself', fn=r.q)
+
+
+# --------------------------------------------------------------------------
+# R-C15c
+# --------------------------------------------------------------------------
+
+def _exempt_key(prog, owner, kind):
+    if owner.name in PRIMITIVES:
+        ks = [('primitive:' + owner.name, kind)]
+        return ks[0] if ks[0] in EINTR_EXEMPT else None
+    rts = nearest_roots(prog, owner)
+    if not rts:
+        return None
+    key = None
+    for r in rts:
+        hit = [(role, kind) for role in root_role(prog, r) if (role, kind) in EINTR_EXEMPT]
+        if not hit:
+            return None
+        key = hit[0]
+    return key
 
 
 def eintr(ctx):
     prog = ctx.prog
-    n = 0
-    for f in sorted(prog.all_funcs(), key=lambda f: f.q):
-        calls = [e for e in f.events() if e['ev'] == 'call' and e.get('callee') in INTERRUPTIBLE]
-        if not calls:
+    sites = _sites(prog, lambda e: e['ev'] == 'call' and 'callee' in e and prim_kind(e) in INTERRUPTIBLE)
+    if len(sites) < 22:
+        raise AnalysisBroken('interruptible call sites: %d found, 25 confirmed' % len(sites))
+    for loc, (f, evs) in sorted(sites.items()):
+        c = evs[0]
+        nm = prim_kind(c)
+        inst = '%s:%s' % (f.name, nm)
+        pred = lambda e, nm=nm: e['ev'] == 'call' and 'callee' in e and prim_kind(e) == nm
+
+        def oracle(e, env, marks, loc=loc, pred=pred):
+            if e.get('loc') == loc and pred(e):
+                return fail(EINTR, 'F')
+            return None
+        if nm in WAITS and not h15.zero_timeout_poll(c):
+            def check(root, g, loc=loc, oracle=oracle):
+                # the deadline parameter is given (with no deadline the kernel timer, if any, reports the expiry)
+                init = {p['name']: NZ for p in root.params if 'timespec' in p.get('type', '')}
+
+                def marker(e, env, marks):
+                    if 'F' in marks and e['ev'] == 'store' and last_member(e['lhs']) == ('iv_state', 'time_valid') \
+                            and truth(h15.evaluate(e.get('rhs'), env)) is False:
+                        return ['INVAL']
+                    return ()
+                sim = CSim(prog, root, g, oracle, marker, init).run()
+                rets = [(m, rv) for (_, _, m, rv) in sim.exits if 'F' in m]
+                fat = [m for (_, _, m) in sim.fatals if 'F' in m]
+                if fat:
+                    return False, '%s: EINTR ends in iv_fatal' % root.name
+                if not rets:
+                    return False, '%s: no path returns to the loop after EINTR' % root.name
+                if not all(rv is not None and truth(rv) is True for _, rv in rets):
+                    return False, '%s: may return 0 after EINTR' % root.name
+                if not all('INVAL' in m for m, _ in rets):
+                    return False, '%s: time cache not invalidated after the wait' % root.name
+                return True, '%s: returns non-zero, time invalidated' % root.name
+            ok, res = _eval_site(prog, f, check)
+            ctx.ob('R-C15c', inst + ':wait', ok, loc=loc,
+                   detail='on EINTR the poll slot returns non-zero to the loop (timers re-evaluated with a fresh clock) instead of failing or spinning (%s)'
+                          % '; '.join(d for _, _, d in res), fn=f.q)
             continue
-        for c in calls:
-            n += 1
-            nm = c['callee']
-            inst = '%s:%s' % (f.name, nm)
-            zero_timeout = nm == 'poll' and canon(c['args'][2]) == '0'
-            if nm in WAITS and not zero_timeout:
-                # wait primitive: handled where its result is interpreted (possibly a caller after inlining)
-                ok = _wait_eintr(prog, f, c)
-                ctx.ob('R-C15c', inst + ':wait', ok, loc=c['loc'],
-                       detail='on EINTR the poll slot returns non-zero to the loop (timers re-evaluated) instead of failing or spinning', fn=f.q)
-                continue
-            if (f.name, nm) in EINTR_EXEMPT:
-                ctx.exempt('R-C15c', inst, EINTR_EXEMPT[(f.name, nm)])
-                ctx.ob('R-C15c', inst, True, loc=c['loc'], detail='exempt: ' + EINTR_EXEMPT[(f.name, nm)], fn=f.q)
-                continue
-            ok = eintr_retried(f, c)
-            ctx.ob('R-C15c', inst + '@' + canon(c['args'][0])[:24], ok, loc=c['loc'],
-                   detail='%s is retried while it returns < 0 with errno == EINTR' % nm, fn=f.q)
-    if n < 22:
-        raise AnalysisBroken('interruptible call sites: %d found, 25 confirmed' % n)
-    # the fallback spinlock exemption rests on signals being blocked at every acquisition of sig_lock (other than in the handler)
-    from .c14 import roots_of
-    bad = []
-    for r in roots_of(prog):
-        if r.name == 'iv_signal_handler':
+        ek = _exempt_key(prog, f, nm)
+        if ek is not None:
+            ctx.exempt('R-C15c', inst, EINTR_EXEMPT[ek])
+            ctx.ob('R-C15c', inst, True, loc=loc, detail='exempt (%s): %s' % (ek[0], EINTR_EXEMPT[ek]), fn=f.q)
             continue
-        g = Inliner(prog, expand_methods=True).inline(r)
+
+        def check(root, g, loc=loc, oracle=oracle):
+            sim = (CSim(prog, root, g, oracle) if root.name not in PRIMITIVES else Sim(g, oracle)).run()
+            left = [1 for (_, _, m, _) in sim.exits if 'F' in m] + [1 for (_, _, m) in sim.fatals if 'F' in m]
+            if left:
+                return False, '%s: a path leaves after the call failed with EINTR without repeating it' % root.name
+            return True, '%s: retried' % root.name
+        ok, res = _eval_site(prog, f, check)
+        ctx.ob('R-C15c', inst + '@' + canon(c['args'][0])[:24], ok, loc=loc,
+               detail='%s is repeated for as long as it fails with errno == EINTR: if it always does, no path returns or aborts (%s)'
+                      % (nm, '; '.join(d for _, _, d in res)), fn=f.q)
+    # the lock-primitive exemption rests on signals being blocked at every acquisition of a spinlock outside the asynchronous signal handler
+    handlers = set()
+    for fn_ in prog.all_funcs():
+        for e in fn_.events():
+            if e['ev'] == 'store' and 'rhs' in e:
+                r = strip(e['rhs'])
+                if isinstance(r, dict) and r.get('k') == 'var' and r.get('vk') == 'func' \
+                        and any(x.get('k') == 'member' and x.get('record') == 'sigaction' for x in walk(e['lhs'])):
+                    t = prog.resolve(prog.unit_of(fn_), r['name']) if prog.unit_of(fn_) else prog.funcs.get(r['name'])
+                    if t is not None:
+                        handlers.add(t.q)
+    if not handlers:
+        raise AnalysisBroken('no function installed through struct sigaction found')
+    bad, n = [], 0
+    reach = {}
+    for o in roles.functions_with(prog, lambda e: is_call(e, 'spin_lock') or is_call(e, 'spin_lock_sigmask')):
+        for c in roles.callers_closure(prog, o):
+            reach[c.q] = c
+    slot_fns = {prog.resolve(v[0], v[1]).q for slots in prog.method_tables().values() for v in slots.values()
+                if v and v[0] != 'str' and prog.resolve(v[0], v[1]) is not None}
+    through_slots = bool(slot_fns & set(reach))
+    for r in roles.roots(prog):
+        if r.q in handlers:
+            continue
+        if r.q not in reach and not through_slots:
+            continue
+        g = inlined(prog, r, expand_methods=True)
         ls = locksets(g)
         for e in g.events():
-            if is_call(e, 'spin_lock') and canon(e['args'][0]) == '&sig_lock':
+            if is_call(e, 'spin_lock') and e['ev'] == 'call':
+                n += 1
                 if SIGBLOCK not in held(ls.get((e['_b'], e['_i']))):
                     bad.append((r, e))
-    ctx.ob('R-C15c', 'fallback_spin_lock:precondition', not bad, loc=bad[0][1]['loc'] if bad else prog.fn('iv_signal_register').loc,
-           detail='every spin_lock(&sig_lock) outside the signal handler runs with all signals blocked')
+    if not n:
+        raise AnalysisBroken('no spin_lock acquisition outside the signal handler found')
+    ctx.ob('R-C15c', 'fallback_spin_lock:precondition', not bad, loc=bad[0][1]['loc'] if bad else sorted(handlers)[0],
+           detail='every spin_lock outside the signal handler runs with all signals blocked')
 
 
-def _wait_eintr(prog, f, c):
-    """Find the poll slot(s) that interpret this wait's result and check the EINTR arm."""
-    tables = prog.method_tables()
-    ok_all = True
-    seen = False
-    for t, slots in tables.items():
-        pf = prog.resolve(*slots['poll'])
-        g = Inliner(prog, method_table=t, expand_methods=True, stop=lambda x: x.name in ('iv_event_run_pending_events', 'iv_fd_make_ready')).inline(pf)
-        sites = [e for e in g.events() if e['ev'] == 'call' and e.get('callee') == c['callee'] and e.get('loc') == c['loc']]
-        if not sites:
+# --------------------------------------------------------------------------
+# R-C15d
+# --------------------------------------------------------------------------
+
+def _snapshot(sim, env):
+    return tuple(sorted((k, v) for k, v in env.items() if k in sim.globals and v != TOP))
+
+
+def _left_behind(sim):
+    """file-scope states a failed invocation hands over: at the first point after the failure where control
+    leaves the library (user callback), else at its return"""
+    out = set()
+    for (_, env, m, _) in sim.exits:
+        if 'F' not in m:
             continue
-        seen = True
-        hd = holding(g)
-        # returns reached with errno == EINTR known: must be non-zero constant or the run_timers flag
-        res = delta_analysis(g, [], init_env={pf.params[2]['name']: 'nz'}, extra_relevant=[pf.params[2]['name']], root_only_rets=False)
-        after = set()
-        st_ = [x['_b'] for x in sites]
-        while st_:
-            x = st_.pop()
-            if x in after or x is None:
-                continue
-            after.add(x)
-            st_.extend(g.blocks[x].succ)
-        eintr_rets = 0
-        for (e, d, rc, p) in res.rets:
-            A = hd.get((e['_b'], e['_i']), frozenset())
-            if e['_b'] in after and any(a[0] == '==' and '__errno_location' in a[1] and a[2] == EINTR for a in A):
-                eintr_rets += 1
-                if not ((isinstance(rc, tuple) and rc[1] != 0) or rc == 'nz'):
-                    ok_all = False
-        if eintr_rets == 0:
-            ok_all = False      # no arm returns to the loop on EINTR
-        # and no fatal on EINTR: a fatal block reached only with errno != EINTR
-        for b, blk in g.blocks.items():
-            if blk.noreturn:
-                A = hd.get((b, 0), frozenset())
-                if any(a[0] == '==' and '__errno_location' in a[1] and a[2] == EINTR for a in A):
-                    ok_all = False
-    return seen and ok_all
+        post = [x[1] for x in m if isinstance(x, tuple) and x[0] == 'post']
+        out.add(post[0] if post else _snapshot(sim, env))
+    return out
 
 
 def enosys(ctx):
     prog = ctx.prog
-    PAIRS = [
-        ('epollfd_grab', ('epoll_create1', 'syscall'), ('epoll_create',), 'epoll_support'),
-        ('iv_fd_epoll_wait', ('epoll_pwait2',), ('epoll_wait',), 'epoll_pwait2_support'),
-        ('eventfd_grab', ('syscall', 'eventfd'), None, 'eventfd_in_use'),
-        ('iv_fd_poll_ppoll', ('ppoll',), ('iv_fd_poll_poll',), 'method'),
-        ('iv_event_raw_register', ('eventfd_grab',), ('pipe',), None),
-        ('iv_fd_epoll_timerfd_set_poll_timeout', ('iv_fd_epoll_timerfd_create',), None, 'method'),
-    ]
-    for (fn, prim, alt, flag) in PAIRS:
-        if not prog.has_fn(fn):
+    mnames = h15.method_pointer_names(prog)
+    tables = prog.method_tables()
+    for (label, prims, errnos, alts, mode) in CHAINS:
+        K = prims[-1]
+        sites = _sites(prog, lambda e: is_prim(e, (K,)))
+        for n_, (loc, (f, evs)) in enumerate(sorted(sites.items())):
+            inst = label + ('#%d' % (n_ + 1) if n_ else '')
+
+            def scenario(err, root, g, marker_extra=None):
+                box = {}
+
+                def oracle(e, env, marks):
+                    k = prim_kind(e)
+                    if k == K:
+                        return Outcome(const(-1), const(err), ['F', ('snap', _snapshot(box['sim'], env))])
+                    if k in prims:
+                        return fail(ENOSYS, 'F:' + k)
+                    return None
+
+                def marker(e, env, marks):
+                    out = []
+                    if 'F' in marks:
+                        if alts and e['ev'] == 'call' and 'callee' in e and prim_kind(e) in alts and not h15.zero_timeout_poll(e):
+                            out.append('ALT')
+                        if h15.is_method_store(prog, e):
+                            out.append(('SW', h15.stored_table(e)))
+                        elif e['ev'] == 'store':
+                            l = strip(e['lhs'])
+                            if isinstance(l, dict) and l.get('k') == 'var' and l.get('vk') in ('global', 'staticlocal'):
+                                out.append(('gstore', l['name'], h15.evaluate(e['rhs'], env) if (e.get('op') == '=' and 'rhs' in e) else TOP))
+                    return out
+                return oracle, marker, box
+
+            memo = {}
+
+            def run(err, root, g, init=None):
+                key = (root.q, id(g), err, tuple(sorted((init or {}).items())))
+                if key not in memo:
+                    oracle, marker, box = scenario(err, root, g)
+                    sim = CSim(prog, root, g, oracle, marker, init)
+                    box['sim'] = sim
+                    memo[key] = sim.run()
+                return memo[key]
+
+            # (1) the same invocation reaches the alternative, for every errno that means "missing"
+            def check_reach(root, g):
+                if mode == 'switch':
+                    # the wait of the new method may be reached by dispatching through the pointer just stored
+                    ts = {h15.stored_table(e) for e in g.events() if h15.is_method_store(prog, e)} - {None}
+                    if len(ts) == 1 and list(ts)[0] in tables:
+                        g = inlined(prog, root, method_table=list(ts)[0])
+                for err in errnos:
+                    sim = run(err, root, g)
+                    ends = [m for (_, _, m, _) in sim.exits] + [m for (_, _, m) in sim.fatals]
+                    seen = [m for m in ends if 'F' in m]
+                    if not seen:
+                        # the walk explores a superset of the feasible paths: the site is dead code in this configuration
+                        return True, '%s: the %s site is unreachable' % (root.name, K)
+                    for m in seen:
+                        if alts and 'ALT' not in m:
+                            return False, '%s: errno %d: a path returns/aborts without calling %s' % (root.name, err, '/'.join(alts))
+                        if not alts and not any(isinstance(x, tuple) and x[0] == 'SW' for x in m):
+                            return False, '%s: errno %d: a path returns/aborts without switching the method' % (root.name, err)
+                return True, root.name
+            if alts is not None:
+                ok, res = _eval_site(prog, f, check_reach)
+                ctx.ob('R-C15d', '%s:falls-back' % inst, ok, loc=loc,
+                       detail='when %s fails with %s every path of the same invocation reaches %s (%s)'
+                              % (K, '/'.join(str(e_) for e_ in errnos), '/'.join(alts) or 'the method switch', '; '.join(d for _, _, d in res)), fn=f.q)
+
+            # (2) one-way demotion
+            if mode == 'flag':
+                def check_demote(root, g):
+                    for err in errnos:
+                        sim = run(err, root, g)
+                        for st in _left_behind(sim):
+                            sim2 = run(err, root, g, init=dict(st))
+                            again = [1 for (_, _, m, _) in sim2.exits if 'F' in m] + [1 for (_, _, m) in sim2.fatals if 'F' in m]
+                            if again:
+                                return False, '%s: errno %d: the next invocation calls %s again (state %s)' % (root.name, err, K, dict(st))
+                    return True, root.name
+                ok, res = _eval_site(prog, f, check_demote)
+                ctx.ob('R-C15d', '%s:demotes' % inst, ok, loc=loc,
+                       detail='after %s was found missing, a further invocation entered with the file-scope state left behind does not call it again (%s)'
+                              % (K, '; '.join(d for _, _, d in res)), fn=f.q)
+
+                # (3) only the errnos that mean "missing" demote
+                def changed(m):
+                    snap = {}
+                    for x in m:
+                        if isinstance(x, tuple) and x[0] == 'snap':
+                            snap.update(dict(x[1]))
+                    return {x[1] for x in m if isinstance(x, tuple) and x[0] == 'gstore' and x[2] != snap.get(x[1], TOP)}
+
+                def check_other(root, g):
+                    # the state that records "K is missing": what every path writes after K failed with a handled errno
+                    dem = None
+                    for err in errnos:
+                        sim = run(err, root, g)
+                        for m in [m for (_, _, m, _) in sim.exits] + [m for (_, _, m) in sim.fatals]:
+                            if 'F' in m:
+                                dem = changed(m) if dem is None else (dem & changed(m))
+                    if not dem:
+                        return True, '%s: no file-scope demotion state' % root.name
+                    sim = run(EMFILE, root, g)
+                    for m in [m for (_, _, m, _) in sim.exits] + [m for (_, _, m) in sim.fatals]:
+                        if 'F' in m and (changed(m) & dem):
+                            return False, '%s: %s is overwritten although errno was not one of %s' % (root.name, sorted(changed(m) & dem), list(errnos))
+                    return True, '%s: %s untouched' % (root.name, sorted(dem))
+                ok, res = _eval_site(prog, f, check_other)
+                ctx.ob('R-C15d', '%s:other-errors-do-not-demote' % inst, ok, loc=loc,
+                       detail='a failure of %s with an unrelated errno (EMFILE) leaves the support-level state as it was (%s)' % (K, '; '.join(d for _, _, d in res)), fn=f.q)
+            else:
+                def check_switch(root, g):
+                    role = [x[5:] for x in root_role(prog, root) if x.startswith('slot:') and '@' not in x]
+                    for err in errnos:
+                        sim = run(err, root, g)
+                        for (_, env, m, _) in sim.exits:
+                            if 'F' not in m:
+                                continue
+                            sw = [x[1] for x in m if isinstance(x, tuple) and x[0] == 'SW']
+                            if not sw:
+                                return False, '%s: returns without switching `method`' % root.name
+                            for t in sw:
+                                if t not in tables:
+                                    return False, '%s: switches to %s which is not a method table' % (root.name, t)
+                                for sl in role:
+                                    for tf in prog.slot_targets(sl, t):
+                                        if any(is_prim(x, (K,)) for x in inlined(prog, tf).events()):
+                                            return False, '%s: the new method %s still calls %s' % (root.name, t, K)
+                    return True, root.name
+                ok, res = _eval_site(prog, f, check_switch)
+                ctx.ob('R-C15d', '%s:demotes' % inst, ok, loc=loc,
+                       detail='after %s was found missing the selected method is replaced by one that does not use it (%s)' % (K, '; '.join(d for _, _, d in res)), fn=f.q)
+    splice_probe(ctx)
+
+
+def splice_probe(ctx):
+    """splice probe -> read/write: when the probe fails, the probe's pipe-pair buffers are neither kept in the
+    per-thread buffer cache (the read/write mode would use them as data buffers) nor leaked, and no entry
+    point uses splice afterwards."""
+    prog = ctx.prog
+    allsp = _sites(prog, lambda e: is_prim(e, ('splice',)))
+    if not allsp:
+        return
+    # A splice whose failure with ENOSYS is handed to the caller as an error (every path that saw the failure
+    # returns non-zero) is ordinary I/O.  Any other splice site decides the support level: it is a probe and must
+    # fall back cleanly.
+    def reported(loc, f):
+        def oracle0(e, env, marks):
+            if prim_kind(e) == 'splice' and e.get('loc') == loc:
+                return fail(ENOSYS, 'F')
+            return None
+
+        def check0(root, g):
+            sim = CSim(prog, root, g, oracle0).run()
+            rets = [rv for (_, _, m, rv) in sim.exits if 'F' in m]
+            if rets and all(rv is not None and truth(rv) is True for rv in rets):
+                return True, root.name
+            return False, root.name
+        return _eval_site(prog, f, check0)[0]
+    probe, data_owners = {}, []
+    for loc, v in sorted(allsp.items()):
+        if reported(loc, v[0]):
+            data_owners.append(v[0])
+        else:
+            probe[loc] = v
+    ctx.ob('R-C15d', 'splice:probe-exists', bool(probe), loc=sorted(allsp)[0],
+           detail='%d splice site(s) hand an ENOSYS failure to their caller as an error (ordinary I/O); the %d other site(s) decide the '
+                  'support level (availability probe) and carry the fallback obligations' % (len(data_owners), len(probe)))
+    if not probe:
+        return
+
+    def cnt(marks, what):
+        # saturating, so that a loop of unknown length cannot generate marks without bound
+        return min(len([1 for x in marks if isinstance(x, tuple) and x[0] == what]), 8)
+
+    for loc, (f, evs) in sorted(probe.items()):
+        def oracle(e, env, marks, loc=loc):
+            k = prim_kind(e)
+            if k == 'splice':
+                if e.get('loc') == loc:
+                    return fail(oracle.err, 'F')
+                return Outcome(TOP, None, ['SPLICED'])
+            if k in ('pipe', 'pipe2'):
+                return Outcome(const(0), None, [('pipe', cnt(marks, 'pipe'))])
+            if k in ('malloc', 'calloc'):
+                return Outcome(NZ, None, [('malloc', cnt(marks, 'malloc'))])
+            return None
+
+        def marker(e, env, marks):
+            if e['ev'] != 'call' or 'callee' not in e:
+                return ()
+            k = e['callee']
+            if k == 'close':
+                return [('close', cnt(marks, 'close'))]
+            if k == 'free':
+                return [('free', cnt(marks, 'free'))]
+            if k in ('iv_list_add', 'iv_list_add_tail') and 'F' in marks:
+                return ['CACHED']
+            return ()
+
+        def check(root, g):
+            for err in (ENOSYS, EPERM, EINVAL):
+                oracle.err = err
+                sim = CSim(prog, root, g, oracle, marker).run()
+                seen = [(env, m) for (_, env, m, _) in sim.exits if 'F' in m]
+                if not seen:
+                    return False, '%s: probe not reachable or failure is fatal' % root.name
+                if [1 for (_, _, m) in sim.fatals if 'F' in m]:
+                    return False, '%s: a failing probe aborts' % root.name
+                for env, m in seen:
+                    if 'CACHED' in m:
+                        return False, '%s: errno %d: a probe buffer is put on a list (buffer cache) although splice is unavailable' % (root.name, err)
+                    if cnt(m, 'close') < 2 * cnt(m, 'pipe'):
+                        return False, '%s: errno %d: %d pipe pairs created, %d descriptors closed' % (root.name, err, cnt(m, 'pipe'), cnt(m, 'close'))
+                    if cnt(m, 'free') < cnt(m, 'malloc'):
+                        return False, '%s: errno %d: %d buffers allocated, %d freed' % (root.name, err, cnt(m, 'malloc'), cnt(m, 'free'))
+            return True, root.name
+        ok, res = _eval_site(prog, f, check)
+        ctx.ob('R-C15d', 'splice-probe:buffers-released-not-cached', ok, loc=loc,
+               detail='when the probe fails, every pipe pair and buffer it allocated is closed/freed and none is inserted into the buffer cache (%s)'
+                      % '; '.join(d for _, _, d in res), fn=f.q)
+
+        def check_off(root, g):
+            for err in (ENOSYS, EPERM, EINVAL):
+                oracle.err = err
+                sim = CSim(prog, root, g, oracle, marker).run()
+                for st in _left_behind(sim):
+                    sim2 = CSim(prog, root, g, oracle, marker, dict(st)).run()
+                    if [1 for (_, _, m, _) in sim2.exits if 'F' in m or 'SPLICED' in m]:
+                        return False, '%s: errno %d: probes again' % (root.name, err)
+                    for o in data_owners:
+                        for r2 in nearest_roots(prog, o):
+                            g2 = inlined(prog, r2)
+                            sim3 = CSim(prog, r2, g2, oracle, marker, dict(st)).run()
+                            ends = [m for (_, _, m, _) in sim3.exits] + [m for (_, _, m) in sim3.fatals]
+                            if any('SPLICED' in m or 'F' in m for m in ends):
+                                return False, '%s: errno %d: %s still calls splice with the state left by the failed probe %s' % (root.name, err, r2.name, dict(st))
+            return True, root.name
+        ok, res = _eval_site(prog, f, check_off)
+        ctx.ob('R-C15d', 'splice-probe:demotes', ok, loc=loc,
+               detail='with the file-scope state a failed probe leaves behind, no entry point calls splice any more (read/write are used) (%s)'
+                      % '; '.join(d for _, _, d in res), fn=f.q)
+
+
+# --------------------------------------------------------------------------
+# R-C15e
+# --------------------------------------------------------------------------
+
+STRCMP = ('strcmp', 'strncmp', 'strcasecmp', 'strncasecmp', 'memcmp')
+
+
+def _tables_in(x, tables):
+    return {y['name'] for y in walk(x) if y.get('k') == 'var' and y.get('vk') != 'func' and y['name'] in tables}
+
+
+def _candidate_tables(prog, g, base, tables):
+    """method tables a candidate expression (`iv_fd_poll_method_epoll`, `m`, `candidates[i]`) may denote: the table
+    named, or the tables whose addresses are in the initialiser / assignments of the variables it is computed from"""
+    out = _tables_in(base, tables)
+    names = {y['name'] for y in walk(base) if y.get('k') == 'var' and y.get('vk') != 'func'} - set(tables)
+    seen = set()
+    while names:
+        n = names.pop()
+        if n in seen:
             continue
-        f = prog.fn(fn)
-        prims = [e for e in f.events() if is_call(e, prim)]
-        if not prims:
-            raise AnalysisBroken('%s: primary call %s not found' % (fn, prim))
-        hd = holding(f)
-        # blocks reached with errno == ENOSYS known (or, for wrappers, the -ENOSYS / zero result edge)
-        demote = [e for e in f.events() if flag and e['ev'] == 'store' and strip(e['lhs']).get('k') == 'var' and strip(e['lhs'])['name'] == flag]
-        if flag:
-            ctx.ob('R-C15d', '%s:demotes %s' % (fn, flag), bool(demote), loc=demote[0]['loc'] if demote else f.loc,
-                   detail='the feature flag is lowered when the primary facility is missing', fn=f.q)
-        if alt:
-            alts = [e for e in f.events() if is_call(e, alt)]
-            ok = bool(alts)
-            # the alternative is reachable from the primary's failure without leaving the function
-            reach = set()
-            st = [prims[0]['_b']]
-            while st:
-                x = st.pop()
-                if x in reach or x is None:
-                    continue
-                reach.add(x)
-                st.extend(f.blocks[x].succ)
-            ok = ok and any(a['_b'] in reach for a in alts)
-            # and after a demotion store every path reaches the alternative or returns its result (no failure return in between)
-            for d in demote:
-                mp = must_pass(f, lambda e: e in alts, start_event=d)
-                for (pb, pi, e) in exits_of(f):
-                    if mp.get((pb, pi)) is False:
-                        v = strip(e.get('value')) if 'value' in e else None
-                        if not (flag == 'epoll_support' and isinstance(v, dict)):   # last stage of a chain may report failure
-                            ok = False
-            ctx.ob('R-C15d', '%s:falls-back-to %s' % (fn, '/'.join(alt)), ok, loc=prims[0]['loc'],
-                   detail='after the primary facility reported "missing", the same invocation reaches %s' % '/'.join(alt), fn=f.q)
-    # splice probe -> read/write fallback: buffers allocated in splice mode (pipe pairs, no data area) must not
-    # survive the demotion in the per-thread cache, where the read/write mode would reuse them as data buffers
-    if prog.has_fn('check_splice_available') and prog.global_for('iv_fd_pump.c', 'splice_available') is not None:
-        f = prog.fn('check_splice_available')
-        puts = [e for e in f.events() if is_call(e, 'buf_put')]
-        lowers = [e for e in f.events() if e['ev'] == 'store' and strip(e['lhs']).get('k') == 'var' and strip(e['lhs'])['name'] == 'splice_available'
-                  and canon(e.get('rhs')) == '0']
-        if not lowers:
-            raise AnalysisBroken('check_splice_available: demotion store not found')
-        def tr(e, s_):
-            return True if e in puts else s_
-        _, ev_in = forward(f, False, tr, lambda a, b: a or b)
-        bad = [e for e in lowers if ev_in.get((e['_b'], e['_i']))]
-        ctx.ob('R-C15d', 'check_splice_available:probe-buffers-not-cached-on-demotion', not bad, loc=(bad or lowers)[0]['loc'],
-               detail='no path caches a probe buffer (buf_put) and then lowers splice_available: splice-mode buffers have no data area '
-                      'and would be reused by the read/write fallback', fn=f.q)
-        allocs = [e for e in f.events() if e['ev'] == 'store' and strip(e.get('rhs', {})).get('k') == 'call' and strip(e['rhs']).get('callee') == 'buf_alloc']
-        okf = True
-        hd = holding(f)
-        for lo in lowers:
-            A = hd.get((lo['_b'], lo['_i']), frozenset())
-            for a_ in allocs:
-                v = canon(a_['lhs'])
-                # allocated and non-NULL on this path => freed before the demotion
-                mpa = must_pass(f, lambda e: e is a_)
-                if not mpa.get((lo['_b'], lo['_i'])):
-                    continue
-                if any(x[0] == '==' and x[1] == v and x[2] == '0' for x in A):
-                    continue
-                mpf = must_pass(f, lambda e, v=v: is_call(e, '__buf_free') and canon(e['args'][0]) == v)
-                if not mpf.get((lo['_b'], lo['_i'])):
-                    okf = False
-        ctx.ob('R-C15d', 'check_splice_available:probe-buffers-freed-on-demotion', okf, loc=lowers[0]['loc'],
-               detail='every probe buffer that was allocated is released with __buf_free before splice_available is lowered', fn=f.q)
-    # ENOSYS/EPERM/EINVAL are the handled errnos: the demotion is on an errno-test edge, other errors are returned
-    for (fn, prim, alt, flag) in PAIRS[:3]:
-        f = prog.fn(fn)
-        hd = holding(f)
-        for e in [x for x in f.events() if x['ev'] == 'store' and strip(x['lhs']).get('k') == 'var' and strip(x['lhs'])['name'] == flag]:
-            if canon(e['rhs']) == '0' and flag == 'eventfd_in_use':
-                continue
-            def edge(blk, si, s_):
-                c = blk.term.get('cond') if blk.term else None
-                if c is not None and '__errno_location' in canon(c):
-                    return True
-                return s_
-            _, evx = forward(f, False, lambda x, s_: s_, lambda a, b: a and b, edge=edge)
-            ok = bool(evx.get((e['_b'], e['_i'])))
-            ctx.ob('R-C15d', '%s:%s=%s on-errno-edge' % (fn, flag, canon(e['rhs'])), ok, loc=e['loc'],
-                   detail='the flag is lowered only after the errno of the failed call was examined', fn=f.q)
+        seen.add(n)
+        for e in list(g.events()) + list(getattr(g.inlined_from or g, 'pristine', lambda: g)().events()):
+            # (the inliner renames the declaration of a static local but not its uses)
+            if e['ev'] == 'decl' and (e.get('name') == n or str(e.get('name', '')).startswith(n + '@')) and 'init' in e:
+                out |= _tables_in(e['init'], tables)
+            if e['ev'] == 'store' and 'rhs' in e and strip(e['lhs']).get('k') == 'var' and strip(e['lhs'])['name'] == n:
+                out |= _tables_in(e['rhs'], tables)
+                names |= {y['name'] for y in walk(e['rhs']) if y.get('k') == 'var' and y.get('vk') != 'func'} - set(tables) - seen
+        for key, gl in prog.globals.items():
+            if gl.get('name') == n and isinstance(gl.get('init'), dict):
+                out |= _tables_in(gl['init'], tables)
+    return out
 
 
 def exclusion(ctx):
     prog = ctx.prog
-    f = prog.fn('iv_fd_init_first_thread')
-    cons = [e for e in f.events() if is_call(e, 'consider_poll_method')]
     tables = prog.method_tables()
-    args = {canon(e['args'][1]) for e in cons}
-    ctx.ob('R-C15e', 'first-thread:same-exclusion-list', len(args) == 1 and len(cons) >= len(tables), loc=f.loc,
-           detail='%d candidates considered with exclusion argument(s) %s' % (len(cons), sorted(args)), fn=f.q)
-    considered = {strip(strip(e['args'][2])['e'])['name'] for e in cons if strip(e['args'][2]).get('k') == 'addr'}
-    ctx.ob('R-C15e', 'first-thread:all-tables-considered', considered == set(tables), loc=f.loc,
-           detail='tables considered: %s' % sorted(considered), fn=f.q)
-    c = prog.fn('consider_poll_method')
-    hd = holding(c, user_call_kills=False)
-    inits = [e for e in c.events() if e['ev'] == 'call' and callback_kind(e) == ('method', 'init')]
-    ok = bool(inits)
-    for e in inits:
-        A = hd.get((e['_b'], e['_i']), frozenset())
-        ok = ok and any(a[1].startswith('method_is_excluded(') and a[0] == '==' and a[2] == '0' for a in A) \
-            and any(a[1] == 'method' and a[0] == '==' and a[2] == '0' for a in A)
-    ctx.ob('R-C15e', 'consider:excluded-methods-not-initialised', ok, loc=c.loc,
-           detail='m->init runs only if no method was chosen yet and the name is not excluded', fn=c.q)
-    fat = [e for e in f.events() if is_call(e, 'iv_fatal')]
-    hdf = holding(f)
-    okf = bool(fat) and all(any(a[1] == 'method' and a[0] == '==' and a[2] == '0' for a in hdf.get((e['_b'], e['_i']), frozenset())) for e in fat)
-    ctx.ob('R-C15e', 'first-thread:fatal-only-if-none', okf, loc=f.loc, detail='fatal only when no method could be initialised', fn=f.q)
-    ex = [e for e in f.events() if is_call(e, 'getenv')]
-    ctx.ob('R-C15e', 'first-thread:environment', bool(ex) and all(canon(e['args'][0]) == '"IV_EXCLUDE_POLL_METHOD"' for e in ex), loc=f.loc,
-           detail='exclusions come from IV_EXCLUDE_POLL_METHOD', fn=f.q)
+    mnames = h15.method_pointer_names(prog)
+
+    # candidate initialisation sites: calls of the `init` slot of anything but the already selected method
+    def candidate(e):
+        if e['ev'] != 'call' or method_slot(e) != 'init':
+            return None
+        b = strip(strip(e['fnexpr'])['base'])
+        if isinstance(b, dict) and b.get('k') == 'var' and b['name'] in mnames:
+            return None
+        return canon(b)
+    owners = roles.functions_with(prog, lambda e: e['ev'] == 'call' and method_slot(e) == 'init')
+    rts = {}
+    for o in owners:
+        for r in nearest_roots(prog, o):
+            rts[r.q] = r
+    sel = []
+    for q in sorted(rts):
+        g = inlined(prog, rts[q])
+        if any(candidate(e) for e in g.events()):
+            sel.append((rts[q], g))
+    if len(sel) != 1:
+        raise AnalysisBroken('method selection: %d entry points initialise candidate methods' % len(sel))
+    root, g = sel[0]
+    inits = {}
+    for e in g.events():
+        c = candidate(e)
+        if c:
+            inits.setdefault(c, []).append(e)
+    denotes = {c: _candidate_tables(prog, g, strip(strip(evs[0]['fnexpr'])['base']), tables) for c, evs in inits.items()}
+    considered = set().union(*denotes.values()) if denotes else set()
+    ctx.ob('R-C15e', 'selection:all-tables-considered', considered == set(tables), loc=root.loc,
+           detail='tables whose init is tried: %s' % sorted(considered), fn=root.q)
+    # the exclusion list: values derived from getenv()
+    envs = [e for e in g.events() if e['ev'] == 'call' and e.get('callee') in ('getenv', 'secure_getenv')]
+    ctx.ob('R-C15e', 'selection:environment', bool(envs) and len({e['loc'] for e in envs}) == 1 and all(canon(e['args'][0]) == '"IV_EXCLUDE_POLL_METHOD"' for e in envs),
+           loc=envs[0]['loc'] if envs else root.loc, detail='exclusions come from one read of IV_EXCLUDE_POLL_METHOD', fn=root.q)
+    tainted = _derived_from(g, lambda r: isinstance(r, dict) and r.get('k') == 'call' and r.get('callee') in ('getenv', 'secure_getenv'))
+
+    def name_of(c):
+        def src(r):
+            return isinstance(r, dict) and r.get('k') == 'member' and last_member(r) == ('iv_fd_poll_method', 'name') and canon(strip(r['base'])) == c
+        return src
+
+    def mentions(x, names, src):
+        for y in walk(x):
+            if y.get('k') == 'var' and y['name'] in names:
+                return True
+            if src(y):
+                return True
+        return False
+    hd = holding(g, user_call_kills=False)
+    for c in sorted(inits):
+        src = name_of(c)
+        holders = _derived_from(g, src, through_calls=False)
+        cmps = [e for e in g.events() if e['ev'] == 'call' and e.get('callee') in STRCMP
+                and any(mentions(a, holders, src) for a in e['args']) and any(mentions(a, tainted, lambda r: False) for a in e['args'])]
+        short = c.replace('iv_fd_poll_method_', '') if c in tables else 'candidate(%s)' % '/'.join(sorted(t.replace('iv_fd_poll_method_', '') for t in denotes[c]))
+        ctx.ob('R-C15e', 'selection:%s:tested-against-list' % short, bool(cmps), loc=(cmps[0]['loc'] if cmps else root.loc),
+               detail='the name of the candidate `%s` is compared with tokens of the exclusion list read from the environment' % c, fn=root.q)
+
+        # scenario: the list contains this name (every comparison with it reports equality): its init must not run
+        cvars = {y['name'] for y in walk(strip(strip(inits[c][0]['fnexpr'])['base'])) if y.get('k') == 'var' and y['name'] not in tables}
+
+        def oracle(e, env, marks, holders=holders, src=src):
+            if e.get('callee') in STRCMP:
+                if any(mentions(a, holders, src) for a in e['args']):
+                    return Outcome(const(0), None, [('%set', '%match', const(1))])
+                return Outcome(NZ, None)
+            return None
+
+        def marker(e, env, marks, c=c, cvars=cvars):
+            if e['ev'] == 'store' and strip(e['lhs']).get('k') == 'var' and strip(e['lhs'])['name'] in cvars:
+                return [('%set', '%match', const(0))]       # the expression now denotes another candidate
+            if env.get('%match') == const(1) and candidate(e) == c:
+                return ['INIT-EXCLUDED']
+            return ()
+        sim = CSim(prog, root, g, oracle, marker).run()
+        ends = [m for (_, _, m, _) in sim.exits] + [m for (_, _, m) in sim.fatals]
+        ok = bool(cmps) and not any('INIT-EXCLUDED' in m for m in ends)
+        # and no candidate is initialised once a method is selected
+        for e in inits[c]:
+            A = hd.get((e['_b'], e['_i']), frozenset())
+            ok = ok and any(a[0] == '==' and a[1] in mnames and a[2] == '0' for a in A)
+        ctx.ob('R-C15e', 'selection:%s:excluded-or-chosen-not-initialised' % short, ok, loc=inits[c][0]['loc'],
+               detail='`%s`.init runs only while no method is selected, and never after its name matched a token of the list' % c, fn=root.q)
+    fat = [b for b, blk in g.blocks.items() if blk.noreturn and hd.get((b, 0)) is not None]
+    okf = bool(fat)
+    for b in fat:
+        A = hd.get((b, 0), frozenset())
+        none_sel = any(a[0] == '==' and a[1] in mnames and a[2] == '0' for a in A)
+        init_failed = any(a[0] in ('<', '!=') and ('iv_fd_poll_method', 'init') in a[3] for a in A)
+        okf = okf and (none_sel or init_failed)
+    ctx.ob('R-C15e', 'selection:fatal-only-if-none', okf, loc=root.loc, detail='fatal only when no method could be initialised', fn=root.q)
+
+
+def _derived_from(g, is_source, through_calls=True):
+    """names of variables whose value derives (flow-insensitively) from a source expression: copies,
+    arithmetic, and -- for the exclusion string -- buffers filled by a call that reads a derived value"""
+    names = set()
+    changed = True
+
+    def reads(x):
+        for y in walk(x):
+            if y.get('k') == 'var' and y['name'] in names:
+                return True
+            if is_source(y):
+                return True
+        return False
+    while changed:
+        changed = False
+        for e in g.events():
+            if e['ev'] == 'store' and 'rhs' in e:
+                l = strip(e['lhs'])
+                if isinstance(l, dict) and l.get('k') == 'var' and l['name'] not in names and (reads(e['rhs']) or (e.get('op') != '=' and l['name'] in names)):
+                    names.add(l['name'])
+                    changed = True
+            elif through_calls and e['ev'] == 'call' and 'callee' in e and any(reads(a) for a in e.get('args', [])):
+                for a in e['args']:
+                    a = strip(a)
+                    v = strip(a['e']) if isinstance(a, dict) and a.get('k') == 'addr' else a
+                    if isinstance(v, dict) and v.get('k') == 'var' and v.get('vk') not in ('func', 'global') and v['name'] not in names \
+                            and (a is not v or '[' in str(v.get('type', ''))):
+                        names.add(v['name'])
+                        changed = True
+    return names
